@@ -39,7 +39,8 @@ HzW3 == cur.dbPre /\ cur.sidePre = 0
 
 -----------------------------------------------------------------------------
 \* the sidecar sequence (before the session, at every poll, after it; across the kill and the restart) never decreases
-SideSeq == <<cur.sidePre0>> \o [k \in DOMAIN cur.polls |-> cur.polls[k].side] \o <<cur.sideAfter>>
+NP == Len(cur.polls)
+SideSeq == [k \in 1..(NP + 2) |-> IF k = 1 THEN cur.sidePre0 ELSE IF k = NP + 2 THEN cur.sideAfter ELSE cur.polls[k - 1].side]
 SidecarMonotone_ == IsSess =>
   /\ \A k \in 1..(Len(SideSeq) - 1) : SideSeq[k] <= SideSeq[k + 1]
   /\ \A k \in DOMAIN SideSeq : SideSeq[k] >= 0                              \* -1: unreadable sidecar
@@ -81,7 +82,7 @@ IsWrite(k) == S[k][1] \in {"write", "pwrite64", "writev", "pwritev", "pwritev2",
 SideRename(k) == S[k][2] = "side.tmp>side"
 Touch(k, f) == {j \in 1..(k - 1) : S[j][2] = f}
 LastOf(T) == CHOOSE j \in T : \A i \in T : i <= j
-\* the sidecar is written to a temporary file, fsynced, then renamed (replica.go:1724 "temp-file + fsync + rename")
+\* the sidecar is written to a temporary file, fsynced, then renamed (replica.go:1730 "temp-file + fsync + rename")
 SidecarPublish_ == cur.kind = "sys" => \A k \in DOMAIN S : SideRename(k) =>
   LET T == Touch(k, "side.tmp") IN
   /\ T # {} /\ IsSync(LastOf(T))
